@@ -78,7 +78,7 @@ fn eq(c: usize, x: (u8, char), y: (u8, char)) -> bool {
 }
 
 /// MSM1 frame of constellation c with satellite 5 and one cell at signal position pos
-fn one_cell_frame(c: usize, pos: u8) -> Vec<u8> {
+pub fn one_cell_frame(c: usize, pos: u8) -> Vec<u8> {
     let n = 1071 + 10 * c as u16;
     let mut b = bits::BitBuf::new();
     b.push(n as u128, 12);
